@@ -332,7 +332,8 @@ def patch_expressions(rnd):
     import gtirb_rewriting
     from gtirb_rewriting.assembly import X86Syntax
     from harness import asmmt
-    target = rnd.choice(list(asmmt.TARGETS))
+    # the targets a RewritingContext exists for, with one syntax per patch
+    target = rnd.choice([t for t, g in asmmt.TARGETS.items() if g.get("abi", True) and g["intel"] is not None])
     tg = asmmt.TARGETS[target]
     pie = rnd.random() < 0.5
     m, msyms = asmmt.make_module(target, pie)
